@@ -238,7 +238,7 @@ def main(argv):
     scs = []
     for ver, v3 in cfgs:
         for mode in ("sync", "async"):
-            sc = {"version": ver, "mode": mode, "timeout": 0.3, "steps": []}
+            sc = {"version": ver, "mode": mode, "timeout": 1.5, "steps": []}
             if v3:
                 sc["v3"] = dict(v3, engine_id="80001f8880a1b2c3d4", agent_engine_id="80001f8880a1b2c3d4", boots=2, time=500)
             for sx in sufs if thorough else rng.sample(sufs, 5):
